@@ -119,7 +119,10 @@ def _threaded(kind, start, end, Q, B, fail):
 
     def consume():
         while True:
-            f = fb.get(timeout=5)
+            try:
+                f = fb.get(timeout=5)
+            except queue.Empty:
+                return
             got.append(None if f["frame_idx"] is None else int(f["frame_idx"]))
             if f["image"] is None:
                 return
@@ -128,4 +131,4 @@ def _threaded(kind, start, end, Q, B, fail):
     c = threading.Thread(target=consume, daemon=True)
     c.start()
     c.join(timeout=10)
-    return f"OS-scheduled run delivered {got}" + (" (consumer still blocked after 10 s)" if c.is_alive() else "")
+    return f"OS-scheduled run delivered {got}" + (" and no end marker within 5 s: the consumer would block for ever" if (not got or got[-1] is not None) else "")
